@@ -1,4 +1,100 @@
-(* C06 - placeholder while the proofs are being written *)
-Require Import D42.Prelude D42.Schema D42.Declare D42.Represent.
-Example c06_stub : eval (represent SNone) = Ok SNone.
+(* C06 - repr(schema) is DSL source that rebuilds an equal schema.
+   Only statements here; proofs are in proofs/RepresentSpec.v (and RepresentReach.v, DeclareInv.v).
+
+   represent : schema -> expr   the call-chain tree Representor.visit_* prints (theories/Represent.v)
+   eval      : expr -> result schema   its evaluation with the declaration model of C10/C11
+   The text layer (literal reprs, indentation, commas) is outside the model: the harness
+   parses the real text into an [expr] and compares (see harness/props/c06.py); finding F15
+   (non-finite floats print as the bare names inf / nan) lives in that layer. *)
+Require Import D42.Prelude D42.Value D42.Regex D42.Schema D42.Validate D42.CaseLib D42.Declare
+               D42.Represent D42.Combinators.
+Require Import D42P.DeclareSpec D42P.DeclareInv D42P.RepresentSpec D42P.RepresentReach.
+
+(* For every schema satisfying the DSL invariant and free of type aliases / custom types:
+   evaluating what repr prints succeeds and yields THE SAME model schema (Leibniz equality,
+   finer than Python ==), hence a structurally identical one with the same repr.
+   No NaN exclusion is needed in the model: a NaN parameter is rebuilt bit for bit; Python's
+   == is irreflexive on it (F10 / C15), and its text does not parse back at all (F15). *)
+Theorem repr_roundtrip_eq :
+  forall s, dsl_inv s = true -> alias_custom_free s = true -> eval (represent s) = Ok s.
+Proof. exact repr_roundtrip_eval. Qed.
+Print Assumptions repr_roundtrip_eq.
+
+Theorem repr_roundtrip :
+  forall s, dsl_inv s = true -> alias_custom_free s = true ->
+  exists s', eval (represent s) = Ok s' /\ s' = s /\ schema_same s s' = true /\
+             represent s' = represent s.
+Proof. exact repr_roundtrip_lemma. Qed.
+Print Assumptions repr_roundtrip.
+
+(* Reachability: the invariant holds for the bare types, is preserved by every successful
+   declaration call (C10: decl_fixed_conforms / run_dsl_inv), by  d1 + d2  and by
+   make_required (model of C13, theories/Combinators.v). *)
+Theorem reach_bare : forall k, dsl_inv (bare k) = true.
+Proof. exact bare_inv. Qed.
+Print Assumptions reach_bare.
+
+Theorem reach_decl :
+  forall m s args s', dsl_inv s = true -> args_inv args = true -> decl m s args = Ok s' ->
+  dsl_inv s' = true.
+Proof. exact decl_inv_lemma. Qed.
+Print Assumptions reach_decl.
+
+Theorem reach_dict_add :
+  forall a b c, dsl_inv a = true -> dsl_inv b = true -> dict_add a b = Ok c -> dsl_inv c = true.
+Proof. exact dict_add_inv_lemma. Qed.
+Print Assumptions reach_dict_add.
+
+Theorem reach_make_required :
+  forall s ks s', dsl_inv s = true -> make_required s ks = Ok s' -> dsl_inv s' = true.
+Proof. exact make_required_inv_lemma. Qed.
+Print Assumptions reach_make_required.
+
+(* ... and so is the second hypothesis: no alias / custom type appears unless one is passed in *)
+Theorem reach_decl_acf :
+  forall m s args s', dsl_inv s = true -> args_inv args = true ->
+  alias_custom_free s = true -> args_acf args = true -> decl m s args = Ok s' ->
+  alias_custom_free s' = true.
+Proof. exact decl_acf_lemma. Qed.
+Print Assumptions reach_decl_acf.
+
+Theorem reach_dict_add_acf :
+  forall a b c, alias_custom_free a = true -> alias_custom_free b = true -> dict_add a b = Ok c ->
+  alias_custom_free c = true.
+Proof. exact dict_add_acf_lemma. Qed.
+Print Assumptions reach_dict_add_acf.
+
+Theorem reach_make_required_acf :
+  forall s ks s', alias_custom_free s = true -> make_required s ks = Ok s' -> alias_custom_free s' = true.
+Proof. exact make_required_acf_lemma. Qed.
+Print Assumptions reach_make_required_acf.
+
+(* ---- non-vacuity: a nested schema with every kind of constraint, an optional key, a `...`
+        key in the middle, `...` elements, nested any ---- *)
+Open Scope N_scope.
+Definition ex_schema : schema :=
+  SDict (Some [ (KStr [97],
+                 Some (SList (Some [Some (SInt (Some (IInt 0%Z)) (Some (IInt 0%Z)) None); None])
+                             None None (Some (IInt 1%Z)) None), false);
+                (KEll, None, false);
+                (KInt 1%Z,
+                 Some (SAny (Some [SStr (Some [97;98]) None (Some (IInt 0%Z)) (Some (IInt 5%Z))
+                                        (Some [97;98]) (Some [98]) None;
+                                   SStr None None None None None None (Some ([97], [RLit 97]));
+                                   SFloat (Some fnan) None None (Some (IBool true));
+                                   SList None (Some (SDict (Some []))) (Some (IInt 0%Z)) None None])),
+                 true) ]).
+Example ex_inv : dsl_inv ex_schema = true /\ alias_custom_free ex_schema = true.
+Proof. vm_compute. split; reflexivity. Qed.
+Example ex_roundtrip : eval (represent ex_schema) = Ok ex_schema.
+Proof. vm_compute. reflexivity. Qed.
+(* the len tail really is part of the tree (F14 was its loss for an empty element list) *)
+Example ex_empty_list_len :
+  represent (SList (Some []) None (Some (IInt 0%Z)) None None)
+  = EMeth (EMeth (EBase KdList) MCall [EListD []]) MLen [ELit (VInt 0%Z)].
 Proof. reflexivity. Qed.
+(* outside the invariant the statement fails: a length contradicting the fixed value is
+   printed, and the printed chain is rejected *)
+Example ex_needs_inv :
+  eval (represent (SStr (Some [97]) (Some (IInt 3%Z)) None None None None None)) = Err DeclErr.
+Proof. vm_compute. reflexivity. Qed.
